@@ -4,6 +4,9 @@ Confirms a seeded change (from /tmp/seeded-out/<seed-name>/) in a scratch worktr
 passes, demo fails with / passes without), then runs ./check PID --tier quick against /repo with the patch
 applied and reverts /repo.  Stores everything under /verif/seeded/<seed-name>/."""
 import json, os, re, shutil, subprocess, sys, time
+import fcntl
+_lock = open("/tmp/vbuild-seed.lock", "w")
+fcntl.flock(_lock, fcntl.LOCK_EX)          # one seed trial at a time: they share the isolated build directory
 name, pid = sys.argv[1], sys.argv[2]
 skip_tests = "--skip-tests" in sys.argv
 src = f"/tmp/seeded-out/{name}"
